@@ -14,7 +14,7 @@ import (
 )
 
 func init() {
-	register(&Prop{ID: "C12", Module: "V.C12.Check", Gen: c12Gen, Quick: 700, Thorough: 8000, Shard: 60})
+	register(&Prop{ID: "C12", Module: "V.C12.Check", Gen: c12Gen, Quick: 260, Thorough: 6000, Shard: 40})
 }
 
 // ---------------------------------------------------------------- independent reference matcher
@@ -332,7 +332,8 @@ func c12GenMatch(r *Rng, tier string, n int) []Case {
 		pats = c12Patterns([]string{"a", "b", "A", "ab", ""}, 4)
 	} else {
 		names = c12Strings([]string{"a", "b", "B"}, 4)
-		pats = c12Patterns([]string{"a", "B", "ab"}, 4)
+		pats = c12Patterns([]string{"a", "B", "ab"}, 3)
+		pats = append(pats, []string{"*", "a", "*", "B"}, []string{"ab", "*", "a", "*"}, []string{"*", "ab", "*", "ab"}, []string{"a", "*", "B", "*"})
 	}
 	for _, p := range pats {
 		out = append(out, c12MatchCases(p, names, "match-exhaustive")...)
